@@ -13,9 +13,8 @@
        required field (declaration order) is 1 << (n-1) as a uint64, i.e. 0 for n > 64; the count
        numRequiredFields saturates at 255 (validate.go newFieldValidationInfo); at the end
        popcount(requiredMask) must equal numRequiredFields;
-       a message-typed occurrence clears the flag when its own flag is false -- EXCEPT when the
-       field is a member of a oneof and not the first declared member of that oneof (isInit is
-       installed on the first member's coder only: codec_field.go initOneofFieldCoders; finding FA2);
+       a message-typed occurrence clears the flag when its own flag is false (also for every member
+       of a oneof: finding FA2 -- isInit installed on the first member's coder only -- is repaired);
        a map entry with message value: the entry is initialized as soon as ONE occurrence of its
        value is (codec_map.go consumeMapOfMessage; finding FA5), an entry without value is not;
        this clears the flag only if the value type needs an init check ([ni], see below).
@@ -94,22 +93,6 @@ Fixpoint msg_popcount_pos (p : positive) : N :=
   end.
 Definition msg_popcount (n : N) : N := match n with N0 => 0 | Npos p => msg_popcount_pos p end.
 
-(* is fd the first declared member of its oneof (true for fields outside oneofs) *)
-Fixpoint msg_first_of_oneof (md : mdesc) (oi : N) : option N :=
-  match md with
-  | [] => None
-  | fd :: r =>
-    match f_oneof fd with
-    | Some j => if (j =? oi) && negb (f_ext fd) then Some (f_num fd) else msg_first_of_oneof r oi
-    | None => msg_first_of_oneof r oi
-    end
-  end.
-Definition msg_tracks_init (md : mdesc) (fd : fdesc) : bool :=
-  match f_oneof fd with
-  | None => true
-  | Some oi => match msg_first_of_oneof md oi with Some n => n =? f_num fd | None => false end
-  end.
-
 Definition msg_ist := (N * bool)%type.   (* requiredMask, initialized *)
 
 Definition msg_init_t := nat -> N -> list byte -> list byte -> dres (bool * list byte).
@@ -162,7 +145,7 @@ Section IStep.
 
   (* a decoded message-typed occurrence whose own flag is f *)
   Definition msg_iupd (fd : fdesc) (f : bool) (st : msg_ist) : msg_ist :=
-    if f then st else if msg_tracks_init md fd then (fst st, false) else st.
+    if f then st else (fst st, false).
 
   Definition msg_iwhole (im : msg_init_t) (tid : nat) (payload : list byte) : dres bool :=
     match im tid 0 (x00 :: payload) payload with
